@@ -421,17 +421,15 @@ inductive GVRel (R : GoVal → GoVal → Prop) : GetValue → GetValue → Prop
   | absent : GVRel R .absent .absent
   | error : GVRel R .error .error
   | unmodelled : GVRel R .unmodelled .unmodelled
-  | panic : GVRel R .panic .panic
 
 theorem GVRel.inv {a b} (h : GVRel R a b) :
     (∃ v v', a = .present v ∧ b = .present v' ∧ AnyRel R v v') ∨ (a = .absent ∧ b = .absent) ∨
-    (a = .error ∧ b = .error) ∨ (a = .unmodelled ∧ b = .unmodelled) ∨ (a = .panic ∧ b = .panic) := by
+    (a = .error ∧ b = .error) ∨ (a = .unmodelled ∧ b = .unmodelled) := by
   cases h with
   | present h => exact .inl ⟨_, _, rfl, rfl, h⟩
   | absent => exact .inr (.inl ⟨rfl, rfl⟩)
   | error => exact .inr (.inr (.inl ⟨rfl, rfl⟩))
-  | unmodelled => exact .inr (.inr (.inr (.inl ⟨rfl, rfl⟩)))
-  | panic => exact .inr (.inr (.inr (.inr ⟨rfl, rfl⟩)))
+  | unmodelled => exact .inr (.inr (.inr ⟨rfl, rfl⟩))
 
 theorem getValue_rel (H : RelHyps R cfg) {o o' : Opts} (ho : OptsRel R cfg o o') {d d' : Any}
     (hd : AnyRel R d d') (path : List GoString) :
@@ -453,7 +451,6 @@ theorem getValue_rel (H : RelHyps R cfg) {o o' : Opts} (ho : OptsRel R cfg o o')
           · exact .error
         · exact .present hr
       | unmodelled => exact .unmodelled
-      | panic => exact .panic
       | _ => exact .error
     · exact .present hr
 
@@ -609,7 +606,7 @@ theorem evaluateMatch_rel (H : RelHyps R cfg) (re : RegexOracle) {o o' : Opts}
     evaluateMatch re o d sel op raw = evaluateMatch re o' d' sel op raw := by
   unfold evaluateMatch
   rcases (getValue_rel H ho hd sel.path).inv with
-    ⟨v, v', h1, h2, hv⟩ | ⟨h1, h2⟩ | ⟨h1, h2⟩ | ⟨h1, h2⟩ | ⟨h1, h2⟩ <;> simp only [h1, h2]
+    ⟨v, v', h1, h2, hv⟩ | ⟨h1, h2⟩ | ⟨h1, h2⟩ | ⟨h1, h2⟩ <;> simp only [h1, h2]
   rcases (narrowJsonNumber_rel H hv).inv with ⟨e, h1, h2⟩ | ⟨x, y, h1, h2, hr⟩ <;>
     simp only [h1, h2]
   have hi := indirect_rel H (v := valueOf x) (v' := valueOf y) hr
@@ -669,7 +666,7 @@ theorem evaluate_rel (H : RelHyps R cfg) (re : RegexOracle) {d d' : Any} (hd : A
     intro o o' ho
     simp only [evaluate]
     rcases (getValue_rel H ho hd sel.path).inv with
-      ⟨v, v', h1, h2, hv⟩ | ⟨h1, h2⟩ | ⟨h1, h2⟩ | ⟨h1, h2⟩ | ⟨h1, h2⟩ <;> simp only [h1, h2]
+      ⟨v, v', h1, h2, hv⟩ | ⟨h1, h2⟩ | ⟨h1, h2⟩ | ⟨h1, h2⟩ <;> simp only [h1, h2]
     have hf : ∀ o o', OptsRel R cfg o o' →
         (fun o' => evaluate re inner o' d) o = (fun o' => evaluate re inner o' d') o' :=
       fun o o' h => ih h
